@@ -277,6 +277,42 @@ def work_triples(chunk):
     return acc
 
 
+def work_strict(chunk):
+    """the unconditional clause "raises nothing" in a process that runs with warnings turned into errors
+    (python -W error, pytest filterwarnings=error): dea3 silences its own divisions by zero and overflows, so the
+    caller's filter must not matter.  Every triple of the chunk: no exception, and the same bits as under the
+    default filters."""
+    from numdifftools.extrapolation import dea3
+    acc = fw.Acc()
+    for case in chunk:
+        e = list(case[1])
+        jc = dict(part='strict', triple=e)
+        # numpy's own defaults for floating-point events (the workers of this harness run with them ignored)
+        with warnings.catch_warnings(), np.errstate(divide='warn', over='warn', invalid='warn', under='ignore'):
+            warnings.simplefilter('error')
+            try:
+                got = dea3(e[0], e[1], e[2])
+                prob = None
+            except Exception as ex:
+                got = None
+                prob = ('raised-%s:warnings-as-errors' % type(ex).__name__,
+                        'dea3%r with warnings.simplefilter("error") raised %s: %s' % (tuple(e), type(ex).__name__, ex))
+        if prob is None:
+            try:
+                ref = lib_dea3(e[0], e[1], e[2])
+                if any(bits(a) != bits(b) for a, b in zip(got, ref)):
+                    prob = ('differs:warnings-as-errors', 'dea3%r gives %r under warnings-as-errors, %r otherwise'
+                            % (tuple(e), got, ref))
+            except Exception:
+                pass            # reported by the main pass
+        tie = e[0] == e[1] or e[1] == e[2]
+        acc.case(('strict',) + tuple(e), nontrivial=True, cell=['strict:warnings-as-errors'] + (['strict:ties'] if tie else []),
+                 outcome=prob is None)
+        if prob:
+            acc.violation('C13:dea3:' + prob[0], jc, prob[1], rank=sum(V.index(x) if x != 0 else 0 for x in e))
+    return acc
+
+
 def bits(x):
     return np.ascontiguousarray(x).tobytes()
 
@@ -423,6 +459,7 @@ def run(ctx):
     acc = ctx.pmap(work_triples, a_cases + b_cases, chunk=200)
     acc.merge(ctx.pmap(work_arrays, arr, chunk=100))
     acc.merge(ctx.pmap(work_broadcast, [0], chunk=1))
+    acc.merge(ctx.pmap(work_strict, [('b', t) for t in itertools.product(V, repeat=3)], chunk=400))   # all of V^3 in both tiers
 
     for c in (('a', 1.0, 1.0, 0.5, 0), ('a', 3.7, -1e-15, -0.9, 5), ('a', 1e15, 1.0, 49.0, 2),
               ('b', (1.0, 1.0 + EPS, 2.0)), ('b', (1e150, -1e150, 1e-300)), ('b', (0.0, 0.0, 0.0))):
@@ -447,7 +484,8 @@ def run(ctx):
           ['a:zone=converged', 'a:zone=irregular', 'a:converged-guard:resolved',
            'b:outside', 'b:outside:ordinary-magnitude', 'b:outside:extreme-magnitude',
            'b:zone=converged', 'b:zone=irregular', 'b:zone=outside', 'b:ties', 'b:all-zero'] + \
-          ['c:shape=%s' % (s,) for s in SHAPES] + ['c:symmetric:shape=%s' % (s,) for s in SHAPES]
+          ['c:shape=%s' % (s,) for s in SHAPES] + ['c:symmetric:shape=%s' % (s,) for s in SHAPES] + \
+          ['strict:warnings-as-errors', 'strict:ties']
     rule = (
         '(a) all %d transients L + a q^k (L x a x q x start index as listed in DESIGN 5/C13; the three terms formed '
         'exactly in Fractions from the float parameters and rounded once); (b) %s triples over the %d-value alphabet '
@@ -471,7 +509,8 @@ def run(ctx):
         'or () for a scalar), symmetric=True == (result[:-1], abserr[1:]) of the plain call (untrimmed for length '
         '1). Non-trivial: (a) outside the guards, resolved, and 10R + A <= 1e-3 * min(|t1-L|, |t2-L|); (b) outside '
         'the guards and 10 R <= 1e-3 |S - e2| (the check tells the extrapolated value from the last term); (c) '
-        'size-1 arrays, or arrays whose elements do not all lie in one guard zone.'
+        'size-1 arrays, or arrays whose elements do not all lie in one guard zone.  (d) every (b) triple once more with '
+        'warnings turned into errors by the caller: nothing raised, same bits.'
         % (len(a_cases), ('all %d' % len(b_cases)) if not ctx.quick else ('%d (middle value +-0, 1 or one of 6 seed-rotated values of V) of the 13824'
                                                                          % len(b_cases)), len(V), len(arr)))
     return fw.finish(ctx, acc, LEVEL, rule, exhaustive=True, required_cells=req,
@@ -489,6 +528,10 @@ def replay(case):
     if part == 'd':
         a = work_broadcast([0])
         probs = [r['detail'] for k, (n, recs) in a.viol.items() for r in recs if r['case'].get('menu') == case.get('menu')]
+        return not probs, 'case=%r -> %s' % (case, probs or 'ok')
+    if part == 'strict':
+        a = work_strict([('b', [float(x) for x in case['triple']])])
+        probs = [r['detail'] for k, (n, recs) in a.viol.items() for r in recs]
         return not probs, 'case=%r -> %s' % (case, probs or 'ok')
     if part == 'c':
         probs, _ = check_array(tuple(case['shape']), [[float(x) for x in t] for t in case['triples']])
